@@ -1,2 +1,15 @@
 #!/bin/sh
-exit 0
+# Build the framework offline from files on disk: regenerate Generated.lean from /repo,
+# compile models, proofs and the driver, and warm the Go build cache for harness and extractor.
+set -e
+cd "$(dirname "$0")"
+export GOFLAGS=-mod=mod GOPROXY=off
+mkdir -p work/bin evidence replays
+cp /repo/go.sum extract/go.sum 2>/dev/null || true
+cp /repo/go.sum harness/go.sum 2>/dev/null || true
+(cd extract && go build -tags verif -o ../work/bin/extract .)
+./work/bin/extract > lean/G9/Generated.lean
+./work/bin/extract -lockfacts /repo > lean/G9/GeneratedLocks.lean
+(cd lean && lake build)
+(cd harness && go build -tags verif -o ../work/bin/harness .)
+echo setup ok
